@@ -118,6 +118,11 @@ func (a *RtspClient) request(method, uri string, hdr []string, body string) {
 	a.Conn.Send([]byte(s))
 }
 
+// Reannounce sends a second ANNOUNCE on the connection of an established publisher (a confused or hostile client).
+func (a *RtspClient) Reannounce() {
+	a.request("ANNOUNCE", a.Url, nil, a.Sdp)
+}
+
 func (a *RtspClient) afterOptions() {
 	if a.Mode == "pub" {
 		a.stage = "announce"
